@@ -14,6 +14,7 @@ import (
 	"sort"
 	"strings"
 	"sync"
+	"testing/synctest"
 
 	"pegsim/world"
 )
@@ -71,6 +72,16 @@ type Transport struct {
 	Sched *Sched
 	// OnHeights decides the tip reported to the sync loop in scheduled mode.
 	OnHeights func() uint32
+	// Deliver, when set, decides the order in which concurrently outstanding
+	// requests are answered: every request (other than the sync loop's heights
+	// poll) waits until everything in the bubble is blocked, then one of the
+	// waiting requests, chosen by Deliver(n), proceeds. The completion order of
+	// the daemon's parallel entry fetches is thereby the simulator's choice.
+	Deliver     func(n int) int
+	Delivered   int // requests released through Deliver
+	MaxInFlight int // highest number of requests waiting at once
+	waiting     []chan struct{}
+	coord       bool
 }
 
 // HeightsReq is a daemon heights poll handed to the runner.
@@ -81,6 +92,34 @@ type HeightsReq struct {
 func NewTransport(w *world.World, seq *uint64) *Transport {
 	return &Transport{W: w, attempts: map[string]int{}, fired: map[string]int{}, seq: seq,
 		SyncAttempts: map[uint32]int{}, HeightsCh: make(chan *HeightsReq)}
+}
+
+// coordinate releases waiting requests one at a time, each time after the
+// bubble has become quiescent, in the order Deliver chooses. It ends when
+// nothing is waiting and is started again by the next request.
+func (t *Transport) coordinate() {
+	for {
+		synctest.Wait()
+		t.mu.Lock()
+		n := len(t.waiting)
+		if n == 0 {
+			t.coord = false
+			t.mu.Unlock()
+			return
+		}
+		if n > t.MaxInFlight {
+			t.MaxInFlight = n
+		}
+		i := 0
+		if n > 1 {
+			i = t.Deliver(n) % n
+		}
+		ch := t.waiting[i]
+		t.waiting = append(t.waiting[:i], t.waiting[i+1:]...)
+		t.Delivered++
+		t.mu.Unlock()
+		close(ch)
+	}
 }
 
 func (t *Transport) SetTip(h uint32) { t.mu.Lock(); t.tip = h; t.mu.Unlock() }
@@ -167,6 +206,18 @@ func (t *Transport) RoundTrip(req *http.Request) (*http.Response, error) {
 
 	if t.Sched != nil {
 		t.Sched.Park("net", caller, rq.Method+" "+params)
+	}
+
+	if t.Deliver != nil && !(rq.Method == "heights" && caller == "DBlockSync") {
+		ch := make(chan struct{})
+		t.mu.Lock()
+		t.waiting = append(t.waiting, ch)
+		if !t.coord {
+			t.coord = true
+			go t.coordinate()
+		}
+		t.mu.Unlock()
+		<-ch
 	}
 
 	tip := t.Tip()
